@@ -487,6 +487,7 @@ func (vt *Model) print(seq ansi.Print) {
 			break
 		}
 		vt.activeScreen[rw][col+i].Character.Grapheme = " "
+		vt.activeScreen[rw][col+i].Character.Width = 1
 		vt.activeScreen[rw][col+i].Style = vt.cursor.Style
 	}
 
